@@ -716,6 +716,9 @@ struct Model {
             Susceptibility X2(*S, *H, A, B, *D); X2.prepare(); X2.compute(); X2.subtractDisconnected(EA, EB); eval(X2, "sub_ea");
             o["aveA"] = cj(EA.getResult()); o["aveB"] = cj(EB.getResult());
             Susceptibility X3(*S, *H, A, B, *D); X3.prepare(); X3.compute(); X3.subtractDisconnected(EA.getResult(), EB.getResult()); eval(X3, "sub_val");
+            // the averages were already prepared by the caller (and the same objects are handed over twice in a row)
+            EnsembleAverage EA2(*S, *H, A, *D), EB2(*S, *H, B, *D); EA2.prepare(); EB2.prepare();
+            Susceptibility X4(*S, *H, A, B, *D); X4.prepare(); X4.compute(); X4.subtractDisconnected(EA2, EB2); X4.subtractDisconnected(EA2, EB2); eval(X4, "sub_ea_prepared");
             out.push_back(o);
         }
         r["sus"] = out;
